@@ -267,6 +267,12 @@ pub fn exec_plain(req: &Req, api: &Arc<InternalAPI>, node: &SimNode, op: &Op) ->
             node.lock().faults.down = false;
             "up".into()
         }
+        Op::WorseTip => {
+            // the next poll of THIS thread (the chain thread) is answered with an equal-work sibling of the tip
+            let bh = node.lock().side_block_hash();
+            crate::node::BEST_OVERRIDE.with(|c| c.set(Some(bh)));
+            "worse-tip".into()
+        }
         Op::NodeUpThenDownAfter { rpcs } => {
             let mut st = node.lock();
             st.faults.down = false;
@@ -361,8 +367,16 @@ fn project(ctx: &TowerCtx, replies: Vec<Vec<String>>, log: &EventLog, from: usiz
                 hex::encode(&bitcoin::hashes::sha256::Hash::hash(&a.blob).to_byte_array()[..8]),
                 a.tsd,
                 t.is_some(),
-                t.map(|t| hex::encode(&bitcoin::hashes::sha256::Hash::hash(&t.penalty).to_byte_array()[..8]))
-                    .unwrap_or_default(),
+                // the penalty and whether the tower has it recorded as confirmed (heights are not compared: they race with
+                // the block being connected by one)
+                t.map(|t| {
+                    format!(
+                        "{}{}",
+                        hex::encode(&bitcoin::hashes::sha256::Hash::hash(&t.penalty).to_byte_array()[..8]),
+                        if t.confirmed { ":confirmed" } else { ":unconfirmed" }
+                    )
+                })
+                .unwrap_or_default(),
             )
         })
         .collect();
@@ -844,14 +858,20 @@ fn run_scenario_here(sc: &Scenario, strategy: Option<Strategy>, order: Option<&[
                     _ => None,
                 })
                 .collect();
-            let blocks_seen = log
-                .since(ev_from)
-                .into_iter()
-                .filter_map(|e| match e {
-                    Event::BlockEnd { hash, height, .. } => Some((hash, height)),
-                    _ => None,
-                })
-                .collect();
+            // the blocks delivered to the listeners during the phase, net of disconnections (a node that comes back on a
+            // sibling makes the tower connect it and reorganise later)
+            let mut blocks_seen: Vec<(bitcoin::BlockHash, u32)> = vec![];
+            for e in log.since(ev_from) {
+                match e {
+                    Event::BlockEnd { hash, height, .. } => blocks_seen.push((hash, height)),
+                    Event::DisconnectEnd { hash, .. } => {
+                        if blocks_seen.last().map(|b| b.0) == Some(hash) {
+                            blocks_seen.pop();
+                        }
+                    }
+                    _ => {}
+                }
+            }
             let st = node.lock();
             let fired = st.fired.iter().map(|(k, v)| (k.to_string(), *v)).collect();
             let node_tip_height = st.height();
